@@ -24,6 +24,7 @@ func init() {
 		Rules: map[string]string{
 			"R1": "the call graph restricted to the library package is acyclic (Tarjan SCC over static + closure + VTA edges, `go` edges excluded)",
 			"R2": "every json.Unmarshal whose input derives from Entry.Value() has its error compared with nil; from the err != nil edge no claim-set unit and no Update/Delete store operation is reachable (Create is allowed)",
+			"R8": "no library type that a record is decoded into (json.Unmarshal target, and the library types of its fields) has an UnmarshalJSON / UnmarshalText method: a record is unreadable exactly when encoding/json rejects it",
 			"R7": "every method invocation on an Entry whose origin is a KeyValue.Get of this library is guarded by NOT (entry == nil)",
 			"R3": "every TypeAssert on a record-derived operand is comma-ok; no Index/Slice with a non-constant index on record-derived bytes",
 			"R6": "every takeover Update is guarded by NOT (\"\" == decoded.ID): a live record that is valid JSON but no leadership payload is never overwritten (shared with C10-R1)",
@@ -33,8 +34,72 @@ func init() {
 	})
 }
 
+// strictDecodeRule (C13-R8): "unreadable" is what encoding/json says it is. Every library type that
+// a record is decoded into (target of json.Unmarshal) and the library types of its fields have no
+// UnmarshalJSON / UnmarshalText method of their own: a lenient decoder ("priority may also be a
+// quoted number", falling back to 0) turns a record whose priority cannot be read into a readable
+// record of priority 0, which every takeover-enabled candidate preempts.
+func strictDecodeRule(c *Ctx, rule string) {
+	m := c.M
+	n := 0
+	seen := map[types.Type]bool{}
+	var lenient func(t types.Type, depth int) string
+	lenient = func(t types.Type, depth int) string {
+		if depth > 3 {
+			return ""
+		}
+		if p, ok := t.(*types.Pointer); ok {
+			t = p.Elem()
+		}
+		nt, ok := t.(*types.Named)
+		if !ok || nt.Obj().Pkg() == nil || nt.Obj().Pkg() != m.P.Leader.Pkg {
+			return ""
+		}
+		ms := m.P.Prog.MethodSets.MethodSet(types.NewPointer(nt))
+		for _, name := range []string{"UnmarshalJSON", "UnmarshalText"} {
+			if ms.Lookup(nil, name) != nil || ms.Lookup(m.P.Leader.Pkg, name) != nil {
+				return nt.Obj().Name() + "." + name
+			}
+		}
+		if st, ok := nt.Underlying().(*types.Struct); ok {
+			for i := 0; i < st.NumFields(); i++ {
+				if r := lenient(st.Field(i).Type(), depth+1); r != "" {
+					return r
+				}
+			}
+		}
+		return ""
+	}
+	for _, f := range m.Funcs {
+		eachInstr(f, func(in ssa.Instruction) {
+			call, ok := isCallTo(valueOf(in), "encoding/json.Unmarshal")
+			if !ok || len(call.Call.Args) != 2 {
+				return
+			}
+			v := call.Call.Args[1]
+			if mi, ok := v.(*ssa.MakeInterface); ok {
+				v = mi.X
+			}
+			t := v.Type()
+			if p, ok := t.(*types.Pointer); ok {
+				t = p.Elem()
+			}
+			nt, ok := t.(*types.Named)
+			if !ok || nt.Obj().Pkg() != m.P.Leader.Pkg || seen[nt] {
+				return
+			}
+			seen[nt] = true
+			n++
+			r := lenient(nt, 0)
+			c.check(r == "", rule, "records are decoded by encoding/json itself: "+nt.Obj().Name(), in, "custom decoder: %q", r)
+		})
+	}
+	_ = n
+}
+
 func checkC13(c *Ctx) {
 	m := c.M
+	strictDecodeRule(c, "R8")
 
 	// ---- R1 recursion -------------------------------------------------------
 	lib := map[*ssa.Function]bool{}
